@@ -1,6 +1,6 @@
 //! C17 - working space is reused in place; rounds and non-growing resets never allocate.
 
-use crate::alloc::{measure, Seen, BIG};
+use crate::alloc::{measure, Seen};
 use crate::engines::*;
 use crate::gen::{self, Cfg};
 use crate::history::{shard_bytes, Obj, RawCfg};
@@ -13,7 +13,7 @@ use serde::{Deserialize, Serialize};
 pub fn def() -> PropDef {
     PropDef {
         id: "C17",
-        rule: "generated histories on one encoder or decoder of every family x engine: a first configuration, then 1..6 steps, each a reset (or into_parts -> new(Some(work)) into another family/engine) to a generated target followed by complete rounds (adds, encode/decode, results read through the borrowing accessors, result dropped). A counting global allocator records every allocation and growing reallocation made by the thread inside the measured region 'reset/new-with-work + adds + encode/decode + read + drop'. need(cfg) is *measured* on a freshly built object of the same family (sizes of its two largest allocations >= 1 KiB). oracle: if need(target) <= the maximum need over the object's past for both buffers, the region contains no allocation >= 1 KiB; second and later rounds of a configuration never allocate >= 1 KiB at all. Every measured buffer is >= 16 KiB so shard-proportional memory cannot hide below the threshold. non-trivial: target differs from the previous configuration and fits; distinct by full case",
+        rule: "generated histories on one encoder or decoder of every family x engine: a first configuration, then 1..6 steps, each a reset (or into_parts -> new(Some(work)) into another family/engine) to a generated target followed by complete rounds (adds, encode/decode, results read through the borrowing accessors, result dropped). A counting global allocator records every allocation and growing reallocation made by the thread inside the measured region 'reset/new-with-work + adds + encode/decode + read + drop'. need(cfg) is *measured* on a freshly built object of the same family (the sizes of everything its constructor allocates, engine excluded). Every history is executed at three scales: as generated, with every shard size x3, and with every count x2. oracle (metamorphic): in every region whose target fits (need(target) <= the element-wise maximum need over the object's past, at both scales) and in every second or later round of a configuration, the number of bytes allocated must be the same at both scales, i.e. nothing that is allocated there may grow with the shard size or with the counts (a fixed-size scratch buffer is not shard-proportional and is tolerated; it is reported in the class histogram). Every measured buffer is >= 16 KiB. non-trivial: target differs from the previous configuration and fits; distinct by full case",
         assumptions: &[
             "an object holds at least the maximum it ever needed (Vec never shrinks); capacity may be larger, which only makes the check claim 'fits' less often than true",
             "all lookup tables and engines are initialised before measuring",
@@ -63,7 +63,7 @@ fn strategy(_t: Tier) -> BoxedStrategy<AllocCase> {
 }
 
 fn parts() -> Vec<Box<dyn PartDyn>> {
-    vec![Box::new(GenPart { name: "alloc", quick: 3_000, thorough: 100_000, shrink_iters: 400, strat: strategy, check })]
+    vec![Box::new(GenPart { name: "alloc", quick: 1_500, thorough: 100_000, shrink_iters: 400, strat: strategy, check })]
 }
 
 fn warm_tables() {
@@ -133,23 +133,75 @@ fn run_round(obj: &mut Obj, inp: &Inputs) -> Result<u64, String> {
     Ok(digest)
 }
 
-/// the two largest allocations (>= 1 KiB) a fresh object of this family makes for this configuration
-fn need(dec: bool, kind: Kind, eng: Eng, c: Cfg) -> Result<(usize, usize), String> {
-    let (obj, seen) = measure(|| Obj::make(dec, kind, eng, c));
-    obj.map_err(|e| format!("fresh construction of {c:?} failed: {e:?}"))?;
-    Ok((seen.max, seen.second))
+/// Working-space need of a configuration, *measured*: the sizes (descending) of everything a fresh
+/// codec of this family allocates in `new` (the engine is built outside the measurement).
+fn need(dec: bool, kind: Kind, eng: Eng, c: Cfg) -> Result<Vec<usize>, String> {
+    use reed_solomon_simd::rate::*;
+    // ReedSolomonEncoder/Decoder == DefaultRate<DefaultEngine> (C09); its constructor builds the engine itself
+    let (kind, eng) = if kind == Kind::Rs { (Kind::Default, Eng::Default) } else { (kind, eng) };
+    let seen: Seen = crate::with_engine!(eng, E, {
+        let e = <E as Mk>::mk();
+        macro_rules! go {
+            ($T:ty) => {{
+                let (r, seen) = measure(|| <$T>::new(c.k, c.r, c.b, e, None).map(|_| ()));
+                r.map_err(|e| format!("fresh construction of {c:?} failed: {e:?}"))?;
+                seen
+            }};
+        }
+        match (dec, kind) {
+            (false, Kind::High) => go!(HighRateEncoder<E>),
+            (false, Kind::Low) => go!(LowRateEncoder<E>),
+            (false, _) => go!(DefaultRateEncoder<E>),
+            (true, Kind::High) => go!(HighRateDecoder<E>),
+            (true, Kind::Low) => go!(LowRateDecoder<E>),
+            (true, _) => go!(DefaultRateDecoder<E>),
+        }
+    });
+    if seen.count > 12 {
+        return Err(format!("harness: construction made {} allocations; need vector would be truncated", seen.count));
+    }
+    let mut v: Vec<usize> = seen.sizes[..seen.count].to_vec();
+    v.sort_unstable_by(|a, b| b.cmp(a));
+    Ok(v)
 }
 
-fn check(c: &AllocCase, st: &mut Stats) -> CheckResult {
-    warm_tables();
+/// need <= held, element by element (both descending)
+fn fits_in(need: &[usize], held: &[usize]) -> bool {
+    need.iter().enumerate().all(|(i, &n)| n <= held.get(i).copied().unwrap_or(0))
+}
+
+fn hold_more(held: &mut Vec<usize>, need: &[usize]) {
+    for (i, &n) in need.iter().enumerate() {
+        if i < held.len() {
+            held[i] = held[i].max(n);
+        } else {
+            held.push(n);
+        }
+    }
+}
+
+#[derive(Clone, Debug)]
+struct RegionObs {
+    label: String,
+    fits: bool,
+    seen: Seen,
+    changed: bool,
+}
+
+fn scaled(rc: &RawCfg, bs: usize, cs: usize) -> RawCfg {
+    RawCfg { bounded: rc.bounded * cs, other: rc.other * cs, flip: rc.flip, size: rc.size * bs }
+}
+
+/// executes the history with shard sizes x bs and counts x cs; one observation per measured region
+fn execute(c: &AllocCase, bs: usize, cs: usize) -> Result<Vec<RegionObs>, crate::runner::Fail> {
     let dec = c.dec;
     let mut kind = c.kind;
     let mut eng = c.eng;
-    let mut cur = c.init.orient(kind);
-    let (mut held1, mut held2) = need(dec, kind, eng, cur)?;
-    ensure!(held1 >= 16 * 1024, "harness: generated configuration with a buffer below 16 KiB: {cur:?} needs {held1}");
+    let mut cur = scaled(&c.init, bs, cs).orient(kind);
+    let mut held = need(dec, kind, eng, cur)?;
+    ensure!(held[0] >= 16 * 1024, "harness: generated configuration with a buffer below 16 KiB: {cur:?} needs {held:?}");
     let mut obj = Obj::make(dec, kind, eng, cur).map_err(|e| format!("construction failed: {e:?}"))?;
-    let mut fits_seen = 0;
+    let mut obs = Vec::new();
     // one warm-up round on the initial configuration
     run_round(&mut obj, &inputs(dec, cur, c.seed))?;
 
@@ -158,10 +210,9 @@ fn check(c: &AllocCase, st: &mut Stats) -> CheckResult {
             Some((k, e)) if kind != Kind::Rs => (k, e),
             _ => (kind, eng),
         };
-        let target = step.cfg.orient(k2);
-        let (n1, n2) = need(dec, k2, e2, target)?;
-        ensure!(n1 >= 16 * 1024, "harness: generated target with a buffer below 16 KiB");
-        let fits = n1 <= held1 && n2 <= held2;
+        let target = scaled(&step.cfg, bs, cs).orient(k2);
+        let n = need(dec, k2, e2, target)?;
+        let fits = fits_in(&n, &held);
         let inp = inputs(dec, target, c.seed ^ si as u64);
         let recycle = (k2, e2) != (kind, eng);
         // ---- measured region: reset / new-with-work + first round
@@ -182,41 +233,57 @@ fn check(c: &AllocCase, st: &mut Stats) -> CheckResult {
         });
         let (o, _digest) = res?;
         obj = o;
-        if fits {
-            fits_seen += 1;
-            if seen.big > 0 {
-                fail!(
-                    "step {si}: {} from {cur:?} to {target:?} ({} {}), which needs no more working space than the object already holds (needs {n1}+{n2} bytes, holds >= {held1}+{held2}), allocated {} block(s) >= {BIG} bytes (largest {} bytes) during reset + adds + {} + reading the result",
-                    if recycle { "new(Some(work))" } else { "reset" }, k2.name(), e2.name(), seen.big, seen.max, if dec { "decode" } else { "encode" }
-                );
-            }
-        } else {
-            st.classf("grow_allocated", seen.big > 0);
-        }
-        held1 = held1.max(n1);
-        held2 = held2.max(n2);
+        obs.push(RegionObs {
+            label: format!("step {si}: {} from {cur:?} to {target:?} ({} {}) + first round", if recycle { "new(Some(work))" } else { "reset" }, k2.name(), e2.name()),
+            fits,
+            seen,
+            changed: target != cur,
+        });
+        hold_more(&mut held, &n);
         kind = k2;
         eng = e2;
-        // ---- further rounds of the same configuration never allocate shard-proportional memory
+        // ---- further rounds of the same configuration
         for rd in 1..step.rounds {
             let inp = inputs(dec, target, c.seed ^ si as u64 ^ (rd as u64) << 32);
             let (res, seen) = measure(|| run_round(&mut obj, &inp));
             res?;
-            if seen.big > 0 {
-                fail!(
-                    "step {si}: round {rd} on an unchanged configuration {target:?} ({} {}) allocated {} block(s) >= {BIG} bytes (largest {} bytes)",
-                    kind.name(), eng.name(), seen.big, seen.max
-                );
-            }
-        }
-        st.classf("step", if recycle { "recycle" } else { "reset" });
-        st.classf("fits", fits);
-        if fits && target != cur {
-            st.classf("shrink", format!("{}{}{}", if target.k < cur.k { "k" } else { "" }, if target.r < cur.r { "r" } else { "" }, if target.b < cur.b { "b" } else { "" }));
+            obs.push(RegionObs { label: format!("step {si}: round {rd} on the unchanged configuration {target:?} ({} {})", kind.name(), eng.name()), fits: true, seen, changed: false });
         }
         cur = target;
     }
-    st.classf("subject", if dec { "decoder" } else { "encoder" });
+    Ok(obs)
+}
+
+fn check(c: &AllocCase, st: &mut Stats) -> CheckResult {
+    warm_tables();
+    let base = execute(c, 1, 1)?;
+    let mut fits_seen = 0;
+    for (name, bs, cs) in [("shard size x3", 3usize, 1usize), ("counts x2", 1, 2)] {
+        let other = execute(c, bs, cs)?;
+        ensure!(other.len() == base.len(), "harness: region lists differ between scales");
+        for (a, b) in base.iter().zip(&other) {
+            if a.fits && b.fits && b.seen.bytes > a.seen.bytes {
+                fail!(
+                    "{}: the target needs no more working space than the object already holds, yet the bytes allocated in this region grow with the configuration: {} bytes as generated, {} bytes with {name} (largest single allocation {} -> {} bytes); memory proportional to the shards is being allocated instead of reused",
+                    a.label, a.seen.bytes, b.seen.bytes, a.seen.max, b.seen.max
+                );
+            }
+        }
+    }
+    for a in &base {
+        st.classf("fits", a.fits);
+        if a.fits {
+            if a.changed {
+                fits_seen += 1;
+            }
+            // not a violation: reported so that a reader sees fixed-size scratch allocations
+            st.classf("fits_region_fixed_alloc_ge_1KiB", a.seen.big > 0);
+        } else {
+            st.classf("grow_allocated", a.seen.big > 0);
+        }
+    }
+    st.classf("subject", if c.dec { "decoder" } else { "encoder" });
+    st.classf("recycles", c.steps.iter().filter(|s| s.recycle.is_some()).count().min(3));
     if fits_seen > 0 {
         st.nontrivial_case("alloc", c);
     }
